@@ -53,6 +53,31 @@ def miri_stage(chk, bins, tier):
                           {'miri': r['stdout'][-500:], 'dbg': base.out[-500:]})
 
 
+def native_probe_sources(step):
+    """the native probe table (every collection/string/iterator/number native with normal, boundary and invalid
+    arguments, callbacks that print or raise): each probe starts a fresh Vm with a minimal stack, so stack growth
+    and collections fall inside natives and their callbacks"""
+    try:
+        import gen_natives
+        return [('probe%d' % i, t) for i, t in enumerate(gen_natives._table()) if i % step == 0]
+    except Exception:
+        return []
+
+
+def small_stack_sources():
+    """natives that raise, as the very first thing a program does (the stack has not grown yet) and again deeper"""
+    heads = ['assertEq("a", "expected");', 'assertNe("a", "a");', 'assert(false);', '[1][5];', '{"k": 1}["z"];', '"abc"[9];',
+             '(1, 2)[7];', 'Number.parse("x");', '[3, 1].sort(|a, b| "s");', '[1].iter().each(|x| [][x]);', 'nil.foo();',
+             'let c = chan(1); c.close(); c <- 1;', '[1, 2].iter().reduce("a", |a, x| a + x);']
+    out = []
+    for i, h in enumerate(heads):
+        out.append(('smallstack_top_%d' % i, h + '\nprint("unreachable");\n'))
+        out.append(('smallstack_try_%d' % i, 'try { %s print("returned"); } catch e: Error { print(e.cls().name(), e.message); }\n'
+                    'fn f(n) { if n > 0 { return f(n - 1); } try { %s } catch e: Error { print(n, e.cls().name(), e.message); } return 0; }\n'
+                    'for d in [0, 1, 2, 3, 5, 8, 13, 21, 34, 55] { f(d); }\nprint("end");\n' % (h, h)))
+    return out
+
+
 def main():
     tier = sys.argv[sys.argv.index('--tier') + 1] if '--tier' in sys.argv else 'quick'
     q = ['--alloc', 'quarantine', '--intern-check']
@@ -81,7 +106,8 @@ def main():
         n_gen_quick=450, n_gen_thorough=9000, cfgs=cfgs,
         stat_keys=('collections', 'objs_freed', 'full_sweeps', 'nursery_sweeps', 'intern_checks', 'allocs'),
         requires=[('collections', 50000, 1000000), ('objs_freed', 50000, 1000000)],
-        point_sweeps=4 if tier == 'quick' else 24, point_cfg='dbg', point_extra=q, timeout=90, post=miri_stage)
+        point_sweeps=4 if tier == 'quick' else 24, point_cfg='dbg', point_extra=q, timeout=90, post=miri_stage,
+        extra_sources=native_probe_sources(3 if tier == 'quick' else 1) + small_stack_sources())
 
 
 if __name__ == '__main__':
